@@ -230,6 +230,17 @@ pub fn compare_norm(input: &Scan, output: &Scan, dir: &str, lib: &LibView) -> No
                 "link-count",
                 format!("`{}`: {} links -> {}", a.text, la.len(), lb.len()),
             ));
+            // a link that stopped being a link (or a new one) is also a rewritten link: C06
+            let mut da: Vec<&str> = la.iter().filter(|l| l.kind != LKind::Image).map(|l| strip_md(&l.dest)).collect();
+            let mut db: Vec<&str> = lb.iter().filter(|l| l.kind != LKind::Image).map(|l| strip_md(&l.dest)).collect();
+            da.sort();
+            db.sort();
+            if da != db {
+                r.c06.push(d(
+                    "link-lost-or-invented",
+                    format!("`{}`: link destinations {:?} -> {:?}", a.text, da, db),
+                ));
+            }
             continue;
         }
         for (x, y) in la.iter().zip(lb.iter()) {
